@@ -44,7 +44,7 @@ Lemma has_disc_app a b : has_disc (a ++ b) = has_disc a || has_disc b.
 Proof. apply existsb_app. Qed.
 
 (* ---- the invariant at stable points ---- *)
-(* w = false: just after a socket was created, before CONNECT is queued (wire clause suspended) *)
+(* w = false: a socket was just created and CONNECT is not queued yet (wire clause suspended) *)
 Record V (w : bool) (s : st) (k : k10) : Prop := mkV {
   i_ok1 : k1_ok (b1 k) = true;
   i_ok2 : k2_ok (b2 k) = true;
@@ -58,12 +58,14 @@ Record V (w : bool) (s : st) (k : k10) : Prop := mkV {
   i_disc : sock s <> None -> k2_disc (b2 k) = disc_state s;
   i_qdisc : has_disc (outq s) = true -> sock s <> None -> cs s = CsDisconnecting;
   i_wire : w = true -> sock s <> None -> wire_okb (k3_phase (b3 k)) (outq s) = true;
-  i_new : w = false -> k3_phase (b3 k) = 0 /\ outq s = []
+  i_new : w = false -> k3_phase (b3 k) = 0 /\ nocon (outq s) = true;
+  i_dsock : cs s = CsDisconnected -> sock s = None;
+  i_fresh : forall id, sock s = Some id -> id <= nsock s
 }.
 
-(* scripts allowed by the exclusions D, G, R (the clause C is per operation) *)
-Definition scr_ok (q : scripts) : bool :=
-  forallb is_nil (q_open q) && queue_noreconn (q_discopen q)
+(* scripts allowed by the exclusions D and R *)
+Definition scr_ok (ext : bool) (q : scripts) : bool :=
+  (if ext then queue_noreconn (q_open q) else forallb is_nil (q_open q))
   && forallb (forallb is_pubsub) (q_close q) && forallb (forallb is_pubsub) (q_unregw q)
   && queue_noreconn (q_regw q).
 
@@ -221,6 +223,9 @@ Lemma packet_queue_quiet k s : NW c s -> queue_noreconn (q_regw (scr s)) = true 
   quiet_rel s (fst (packet_queue c nested k s)).
 Proof.
   intros Hnw Hrq Hs Hk Hkd. unfold packet_queue.
+  assert (Em : (match k with KConnect => mkQ k false :: outq s | _ => outq s ++ [mkQ k false] end) = outq s ++ [mkQ k false])
+    by (destruct k; try discriminate Hk; reflexivity).
+  rewrite Em. clear Em.
   set (s1 := set_outq (outq s ++ [mkQ k false]) s).
   assert (E : negb (c_ext c) && negb (incb s1) = false).
   { destruct Hnw as [A|A]; [rewrite A; reflexivity|]. unfold s1. ssimpl. rewrite A. apply andb_false_r. }
@@ -297,87 +302,101 @@ Qed.
 
 (* ================================================================ events against the invariant *)
 Ltac k10s := unfold k10_ev; cbn [b1 b2 b3 k1x_ev k1_ev k2_ev k3_ev teardown_site
-                                  k1_ok k1_cur k1_est k2_ok k2_cur k2_disc k2_owed k2_credit k3_ok k3_cur k3_phase].
+                                  k1_ok k1_cur k1_est k1_repl k2_ok k2_cur k2_disc k2_owed k2_credit k3_ok k3_cur k3_phase].
+Ltac dV H := destruct H as [ok1 ok2 ok3 cur1 cur2 cur3 conn owed credit disc qdisc wire new dsock fresh].
 
 Definition inert10 (e : event) : bool :=
   match e with
   | SockOpen _ | SockClose _ | RegW _ | UnregW _ | CbPublish | Ret _ | Raised | Deadlock | Fuel => true
   | Call x => match x with CDisconnect => false | _ => true end
-  | Obs w _ _ _ _ => teardown_site w
   | _ => false
   end.
 Lemma k10_inert k e : inert10 e = true -> k10_ev k e = k.
 Proof.
   destruct k as [[] [] []]. destruct e as [| | | | | | | | | |x| | | | |w ? ? ? ?]; try discriminate; try reflexivity.
-  - destruct x; try discriminate; reflexivity.
-  - intros H. unfold k10_ev. cbn [b1 b2 b3 k1x_ev k2_ev k3_ev]. cbn in H. rewrite H. reflexivity.
+  destruct x; try discriminate; reflexivity.
 Qed.
 Lemma tev_ps_inert e : tev_ps e = true -> inert10 e = true.
 Proof. destruct e as [| | | | | | | | | |x| | | | |]; try discriminate; try reflexivity. destruct x; try discriminate; reflexivity. Qed.
 
-Lemma V_frame w s s' k : sock s' = sock s -> cs s' = cs s -> outq s' = outq s -> V w s k -> V w s' k.
+(* an observation at the entry of on_socket_close / on_socket_unregister_write changes nothing when the
+   state is not connected, or when the connection is being replaced (not judged) *)
+Lemma k10_obs_tear k w conn hs ww rw : teardown_site w = true -> (conn = false \/ k1_repl (b1 k) = true) ->
+  k10_ev k (Obs w conn hs ww rw) = k.
 Proof.
-  intros Hs Hc Hq HV; destruct HV as [ok1 ok2 ok3 cur1 cur2 cur3 conn owed credit disc qdisc wire new]. unfold is_connected, disc_state in *.
-  constructor; unfold is_connected, disc_state; rewrite ?Hs, ?Hc, ?Hq; assumption.
+  intros Hw H. destruct k as [[a b r o] [] []]. unfold k10_ev. cbn [b1 b2 b3 k1x_ev k2_ev k3_ev k1_repl] in *.
+  rewrite Hw. cbn [andb]. destruct r; [reflexivity|]. destruct H as [-> | H]; [|discriminate].
+  cbn [k1_ev negb orb k1_cur k1_est k1_repl k1_ok]. rewrite andb_true_r. reflexivity.
+Qed.
+Lemma k10_connend_repl k id r : k1_repl (b1 (k10_ev k (ConnEnd id r))) = is_replaced r.
+Proof. reflexivity. Qed.
+
+Lemma V_frame w s s' k : sock s' = sock s -> cs s' = cs s -> outq s' = outq s -> nsock s' = nsock s -> V w s k -> V w s' k.
+Proof.
+  intros Hs Hc Hq Hn HV; dV HV. unfold is_connected, disc_state in *.
+  constructor; unfold is_connected, disc_state; rewrite ?Hs, ?Hc, ?Hq, ?Hn; assumption.
 Qed.
 Lemma V_inert w s k e : inert10 e = true -> V w s k -> V w s (k10_ev k e).
 Proof. intros He H. rewrite k10_inert by exact He. exact H. Qed.
 
 Lemma V_obs w x s k ww rw : V w s k -> V w s (k10_ev k (Obs x (is_connected s) (has_sock s) ww rw)).
 Proof.
-  intros H. destruct (teardown_site x) eqn:Et; [apply V_inert; [exact Et|exact H]|].
-  destruct H as [ok1 ok2 ok3 cur1 cur2 cur3 conn owed credit disc qdisc wire new]. k10s. rewrite Et. cbn [k1_ev].
-  constructor; k10s; try assumption.
-  rewrite ok1. cbn [andb]. destruct (is_connected s) eqn:Ec; [|reflexivity]. cbn [negb orb].
-  destruct (conn eq_refl) as [A B]. rewrite A. unfold has_sock. destruct (sock s); [reflexivity|congruence].
+  intros H. dV H. k10s.
+  assert (G : V w s (mkK10 (k1_ev (b1 k) (Obs x (is_connected s) (has_sock s) ww rw)) (b2 k) (b3 k))).
+  { constructor; k10s; try assumption.
+    rewrite ok1. cbn [andb]. destruct (is_connected s) eqn:Ec; [|reflexivity]. cbn [negb orb].
+    destruct (conn eq_refl) as [A B]. rewrite A. unfold has_sock. destruct (sock s); [reflexivity|congruence]. }
+  destruct (teardown_site x && k1_repl (b1 k)); [|exact G].
+  constructor; assumption.
 Qed.
 
 (* with no socket held the invariant is small *)
 Lemma V_nosock w s k : sock s = None -> is_connected s = false ->
   k1_ok (b1 k) = true -> k2_ok (b2 k) = true -> k3_ok (b3 k) = true ->
   k1_cur (b1 k) = None -> k2_cur (b2 k) = None -> k2_owed (b2 k) = None -> k2_credit (b2 k) = None ->
-  (w = false -> k3_phase (b3 k) = 0 /\ outq s = []) -> V w s k.
+  (w = false -> k3_phase (b3 k) = 0 /\ nocon (outq s) = true) -> V w s k.
 Proof.
   intros Hs Hc. intros. constructor; rewrite ?Hs; try assumption; try congruence.
 Qed.
 
 (* disconnect() *)
-Lemma V_call_disc_some id s k : sock s = Some id -> V true s k ->
-  V true (set_cs CsDisconnecting s) (k10_ev k (Call CDisconnect)).
+Lemma V_call_disc_some id w s k : sock s = Some id -> V w s k ->
+  V w (set_cs CsDisconnecting s) (k10_ev k (Call CDisconnect)).
 Proof.
-  intros Hs HV; destruct HV as [ok1 ok2 ok3 cur1 cur2 cur3 conn owed credit disc qdisc wire new]. k10s. rewrite owed.
+  intros Hs HV; dV HV. k10s. rewrite owed.
   constructor; k10s; ssimpl; unfold is_connected, disc_state in *; ssimpl; try assumption; try discriminate; try reflexivity.
 Qed.
 Lemma V_call_disc_none w s k : sock s = None -> V w s k ->
   V w (set_cs CsDisconnected s) (k10_ev k (Call CDisconnect)).
 Proof.
-  intros Hs HV; destruct HV as [ok1 ok2 ok3 cur1 cur2 cur3 conn owed credit disc qdisc wire new]. k10s. rewrite owed.
+  intros Hs HV; dV HV. k10s. rewrite owed.
   constructor; k10s; ssimpl; unfold is_connected, disc_state in *; ssimpl; rewrite ?Hs in *; try assumption; try discriminate; try congruence.
 Qed.
 
 (* queueing a packet *)
-Lemma V_append kd s k : V true s k -> is_connect kd = false ->
+Lemma V_append kd w s k : V w s k -> is_connect kd = false ->
   (is_disconnect kd = true -> sock s <> None -> cs s = CsDisconnecting) ->
-  V true (set_outq (outq s ++ [mkQ kd false]) s) k.
+  V w (set_outq (outq s ++ [mkQ kd false]) s) k.
 Proof.
-  intros HV Hk Hd; destruct HV as [ok1 ok2 ok3 cur1 cur2 cur3 conn owed credit disc qdisc wire new]. constructor; ssimpl; try assumption.
+  intros HV Hk Hd; dV HV. constructor; ssimpl; try assumption.
   - rewrite has_disc_app. intros H Hs. apply orb_true_iff in H as [H|H]; [apply qdisc; assumption|].
     cbn in H. rewrite orb_false_r in H. apply Hd; assumption.
-  - intros _ Hs. apply wire_okb_app; [apply wire; [reflexivity|exact Hs]|]. cbn. rewrite Hk. reflexivity.
-  - intros; discriminate.
+  - intros Hw Hs. apply wire_okb_app; [apply wire; assumption|]. cbn. rewrite Hk. reflexivity.
+  - intros Hw. destruct (new Hw) as [A B]. split; [exact A|]. rewrite nocon_app, B. cbn. rewrite Hk. reflexivity.
 Qed.
-Lemma V_append_connect s k : V false s k -> V true (set_outq (outq s ++ [mkQ KConnect false]) s) k.
+(* CONNECT is put at the head *)
+Lemma V_append_connect s k : V false s k -> V true (set_outq (mkQ KConnect false :: outq s) s) k.
 Proof.
-  intros HV; destruct HV as [ok1 ok2 ok3 cur1 cur2 cur3 conn owed credit disc qdisc wire new]. destruct (new eq_refl) as [Hp Hq]. constructor; ssimpl; rewrite ?Hq in *; try assumption.
-  - intros _ _. rewrite Hp. reflexivity.
-  - intros; discriminate.
+  intros HV; dV HV. destruct (new eq_refl) as [Hp Hq]. constructor; ssimpl; try assumption.
+  - intros _ _. rewrite Hp. cbn. exact Hq.
+  - intros X; discriminate X.
 Qed.
 
 (* a packet leaves the queue head and is on the wire *)
 Lemma V_tx id p q' s k : sock s = Some id -> outq s = p :: q' -> is_disconnect (qk p) = false -> V true s k ->
   V true (set_outq q' s) (k10_ev k (Tx id (qk p))).
 Proof.
-  intros Hs Hq Hd HV; destruct HV as [ok1 ok2 ok3 cur1 cur2 cur3 conn owed credit disc qdisc wire new]. k10s.
+  intros Hs Hq Hd HV; dV HV. k10s.
   pose proof (wire eq_refl ltac:(congruence)) as W. rewrite Hq in W. unfold wire_okb in W.
   rewrite (cur3 id Hs), Z.eqb_refl. cbn [andb]. rewrite Hd.
   destruct (k3_phase (b3 k) =? 0) eqn:E0.
@@ -394,39 +413,46 @@ Proof.
     + intros _ _. unfold wire_okb. rewrite E0, W1. cbn. exact W3.
 Qed.
 
-(* on_connect *)
-Lemma V_cb_connect rc s k : V true s k -> sock s <> None -> (rc = 0 -> disc_state s = false) ->
-  V true (if rc =? 0 then set_cs CsConnected s else s) (k10_ev k (CbConnect rc)).
+(* on_connect: CONNECTED unless disconnect() is pending *)
+Definition connack_state (rc : Z) (s : st) : st :=
+  if rc =? 0 then match cs s with CsDisconnecting => s | _ => set_cs CsConnected s end else s.
+Lemma V_cb_connect rc s k : V true s k -> sock s <> None ->
+  V true (connack_state rc s) (k10_ev k (CbConnect rc)).
 Proof.
-  intros HV Hs Hd; destruct HV as [ok1 ok2 ok3 cur1 cur2 cur3 conn owed credit disc qdisc wire new]. k10s. destruct (rc =? 0) eqn:E.
-  - assert (rc = 0) by lia. specialize (Hd H).
-    constructor; k10s; ssimpl; unfold is_connected, disc_state in *; ssimpl; try assumption.
-    + intros _. split; [|exact Hs]. rewrite cur1. destruct (sock s); [|congruence]. cbn. apply orb_true_r.
-    + intros X. rewrite disc by exact X. exact Hd.
-    + intros H1 H2. rewrite (qdisc H1 H2) in Hd. discriminate.
+  intros HV Hs; dV HV. k10s. unfold connack_state. destruct (rc =? 0) eqn:E.
+  - assert (Hest : k1_est (b1 k) || true && is_some (k1_cur (b1 k)) = true).
+    { rewrite cur1. destruct (sock s); [|congruence]. cbn. apply orb_true_r. }
+    destruct (cs s) eqn:Ec;
+      (constructor; k10s; ssimpl; unfold is_connected, disc_state in *; ssimpl; rewrite ?Ec in *; try assumption;
+       try (intros; discriminate); try (intros _; split; [exact Hest|exact Hs]);
+       try (intros X; rewrite disc by exact X; reflexivity);
+       try (intros H1 H2; specialize (qdisc H1 H2); discriminate)).
+    (* DISCONNECTED with a socket held is impossible *)
+    all: try (exfalso; apply Hs; apply dsock; reflexivity).
   - cbn [andb]. rewrite orb_false_r. constructor; k10s; try assumption.
 Qed.
 
 (* a socket is created (after the previous one was closed and the queue cleared) *)
 Lemma V_sock_new id w s k s' : V w s k -> sock s = None -> sock s' = Some id -> cs s' = CsConnecting -> outq s' = [] ->
-  V false s' (k10_ev k (SockNew id)).
+  id <= nsock s' -> V false s' (k10_ev k (SockNew id)).
 Proof.
-  intros HV Hs Hs' Hc Hq; destruct HV as [ok1 ok2 ok3 cur1 cur2 cur3 conn owed credit disc qdisc wire new]. k10s.
+  intros HV Hs Hs' Hc Hq Hn; dV HV. k10s.
   constructor; k10s; unfold is_connected, disc_state; rewrite ?Hs', ?Hc, ?Hq; try assumption; try reflexivity; try discriminate.
   - intros x X. inversion X. reflexivity.
   - split; reflexivity.
+  - intros x X. inversion X. subst. exact Hn.
 Qed.
 
 (* the connection ends: replaced by connect()/reconnect() *)
 Lemma V_end_replaced id w s k s' : V w s k -> sock s = Some id -> sock s' = None -> is_connected s' = false ->
   V true s' (k10_ev k (ConnEnd id RReplaced)).
 Proof.
-  intros HV Hs Hs' Hc; destruct HV as [ok1 ok2 ok3 cur1 cur2 cur3 conn owed credit disc qdisc wire new]. apply V_nosock; k10s; try assumption; try reflexivity.
+  intros HV Hs Hs' Hc; dV HV. apply V_nosock; k10s; try assumption; try reflexivity.
   - rewrite credit. cbn. assumption.
   - rewrite credit. reflexivity.
   - rewrite credit. cbn. assumption.
   - rewrite credit. reflexivity.
-  - intros; discriminate.
+  - intros X; discriminate X.
 Qed.
 
 (* the connection ends for another reason and on_disconnect follows *)
@@ -434,10 +460,10 @@ Lemma V_end_lost id r rc fb w s k s' : V w s k -> sock s = Some id -> is_replace
   (fb = true \/ (rc =? 0) = disc_state s) -> sock s' = None -> is_connected s' = false ->
   V true s' (k10_ev (k10_ev k (ConnEnd id r)) (CbDisconnect rc fb)).
 Proof.
-  intros HV Hs Hr Hrc Hs' Hc; destruct HV as [ok1 ok2 ok3 cur1 cur2 cur3 conn owed credit disc qdisc wire new]. apply V_nosock; k10s; rewrite ?credit, ?Hr; k10s; try assumption; try reflexivity.
+  intros HV Hs Hr Hrc Hs' Hc; dV HV. apply V_nosock; k10s; rewrite ?credit, ?Hr; k10s; try assumption; try reflexivity.
   - rewrite ok2, owed. cbn [is_none andb]. rewrite disc by congruence.
     destruct Hrc as [-> | ->]; [reflexivity|]. rewrite Bool.eqb_reflx. apply orb_true_r.
-  - intros; discriminate.
+  - intros X; discriminate X.
 Qed.
 
 (* ---- the window between the on_disconnect announcing a written DISCONNECT and the close ---- *)
@@ -450,13 +476,15 @@ Record Vc (id : Z) (s : st) (k : k10) : Prop := mkVc {
   c_cur2 : k2_cur (b2 k) = Some id;
   c_cs : cs s = CsDisconnecting;
   c_owed : k2_owed (b2 k) = None;
-  c_credit : k2_credit (b2 k) = Some id
+  c_credit : k2_credit (b2 k) = Some id;
+  c_fresh : id <= nsock s
 }.
+Ltac dVc H := destruct H as [cok1 cok2 cok3 csock ccur1 ccur2 ccs cowed ccredit cfresh].
 
 Lemma Vc_enter id p q' s k : sock s = Some id -> outq s = p :: q' -> is_disconnect (qk p) = true -> V true s k ->
   Vc id (set_outq q' s) (k10_ev (k10_ev k (Tx id (qk p))) (CbDisconnect 0 false)).
 Proof.
-  intros Hs Hq Hd HV; destruct HV as [ok1 ok2 ok3 cur1 cur2 cur3 conn owed credit disc qdisc wire new].
+  intros Hs Hq Hd HV; dV HV.
   assert (Hcs : cs s = CsDisconnecting).
   { apply qdisc; [rewrite Hq; cbn; rewrite Hd; reflexivity|congruence]. }
   pose proof (wire eq_refl ltac:(congruence)) as W. rewrite Hq in W. unfold wire_okb in W.
@@ -469,101 +497,105 @@ Proof.
   - rewrite ok2. rewrite disc by congruence. unfold disc_state. rewrite Hcs. reflexivity.
   - rewrite ok3, ?Z.eqb_refl. reflexivity.
   - rewrite cur1. exact Hs.
+  - apply fresh. exact Hs.
 Qed.
 
-(* reconnect()-free nested calls leave the window intact *)
-Lemma Vc_quiet id s s' k0 : quiet_rel s s' -> Vc id s (KS k10_ev k0 s) -> Vc id s' (KS k10_ev k0 s').
+Lemma Vc_obs id s k x hs ww rw : Vc id s k -> Vc id s (k10_ev k (Obs x (is_connected s) hs ww rw)).
 Proof.
-  intros Q HV; destruct HV as [cok1 cok2 cok3 csock ccur1 ccur2 ccs cowed ccredit].
-  destruct (qr_tr _ _ Q) as (evs & Ht & Hq & Ho & Hc).
-  assert (Hconn : is_connected s = false) by (unfold is_connected; rewrite ccs; reflexivity).
-  (* fold the quiet events over the checker state *)
-  assert (G : forall l, Forall (fun e => qev e = true) l -> Forall (obs_sound false) l ->
-            forall k, k2_owed (b2 k) = None ->
-            let k' := fold_right (fun e k => k10_ev k e) k l in
-            b1 k' = b1 k /\ b3 k' = b3 k /\ k2_ok (b2 k') = k2_ok (b2 k) /\ k2_cur (b2 k') = k2_cur (b2 k) /\
-            k2_owed (b2 k') = None /\ k2_credit (b2 k') = k2_credit (b2 k)).
-  { induction l as [|e l IH]; intros F1 F2 k Hk; cbn [fold_right]; [repeat split; assumption|].
-    inversion F1 as [|? ? E1 F1']; subst. inversion F2 as [|? ? E2 F2']; subst.
-    destruct (IH F1' F2' k Hk) as (A1 & A3 & A2 & A4 & A5 & A6).
-    set (k' := fold_right (fun e k => k10_ev k e) k l) in *.
-    destruct e as [| | | | | | | | | |x| | | | |x conn ? ? ?]; try discriminate E1; k10s; try (repeat split; assumption).
-    - destruct x; k10s; try (repeat split; assumption). rewrite A5. k10s. repeat split; assumption.
-    - destruct x as [|si]; [discriminate E1|]. destruct si; try discriminate E1. cbn [teardown_site k1_ev].
-      cbn in E2. destruct conn; [destruct (E2 eq_refl); discriminate|].
-      cbn [negb orb]. rewrite andb_true_r. destruct (b1 k') as [a b c0]. cbn in *. repeat split; try assumption.
-      }
-  unfold KS in *. rewrite Ht, fold_right_app.
-  rewrite Hconn in Ho.
-  destruct (G evs Hq Ho _ cowed) as (A1 & A3 & A2 & A4 & A5 & A6).
-  assert (Hcs' : cs s' = CsDisconnecting).
-  { destruct (has_call_disc evs); rewrite Hc; [rewrite csock; reflexivity|exact ccs]. }
-  constructor; rewrite ?A1, ?A3, ?A2, ?A4, ?A5, ?A6, ?(qr_sock _ _ Q); try assumption; try reflexivity.
+  intros HV. dVc HV.
+  assert (E : is_connected s = false) by (unfold is_connected; rewrite ccs; reflexivity). rewrite E.
+  k10s. destruct (teardown_site x && k1_repl (b1 k)); k10s; constructor; k10s; try assumption.
+  rewrite cok1. reflexivity.
 Qed.
 
 (* the close that ends the window *)
 Lemma Vc_end id s k s' : Vc id s k -> sock s' = None -> is_connected s' = false ->
   V true s' (k10_ev k (ConnEnd id RDiscWritten)).
 Proof.
-  intros HV Hs' Hc; destruct HV as [cok1 cok2 cok3 csock ccur1 ccur2 ccs cowed ccredit]. apply V_nosock; k10s; rewrite ?ccredit; k10s; try assumption; try reflexivity.
+  intros HV Hs' Hc; dVc HV. apply V_nosock; k10s; rewrite ?ccredit; k10s; try assumption; try reflexivity.
   - rewrite cok2, Z.eqb_refl. reflexivity.
-  - intros; discriminate.
+  - intros X; discriminate X.
+Qed.
+(* ... or reconnect() called by that on_disconnect: the connection counts as properly ended *)
+Lemma Vc_end_replaced id s k s' : Vc id s k -> sock s' = None -> is_connected s' = false ->
+  V true s' (k10_ev k (ConnEnd id RReplaced)).
+Proof.
+  intros HV Hs' Hc; dVc HV. apply V_nosock; k10s; rewrite ?ccredit; k10s; try assumption; try reflexivity.
+  - rewrite cok2, Z.eqb_refl. reflexivity.
+  - intros X; discriminate X.
+Qed.
+
+(* ---- folding the events of a reconnect()-free nested run over the checkers ---- *)
+Lemma quiet_fold conn0 : forall l, Forall (fun e => qev e = true) l -> Forall (obs_sound conn0) l ->
+  forall k, k2_owed (b2 k) = None -> k1_ok (b1 k) = true -> (conn0 = true -> k1_est (b1 k) = true) ->
+  let k' := fold_right (fun e k => k10_ev k e) k l in
+  k1_cur (b1 k') = k1_cur (b1 k) /\ k1_est (b1 k') = k1_est (b1 k) /\ k1_ok (b1 k') = true /\
+  b3 k' = b3 k /\ k2_ok (b2 k') = k2_ok (b2 k) /\ k2_cur (b2 k') = k2_cur (b2 k) /\
+  k2_owed (b2 k') = None /\ k2_credit (b2 k') = k2_credit (b2 k) /\
+  k2_disc (b2 k') = k2_disc (b2 k) || has_call_disc l.
+Proof.
+  induction l as [|e l IH]; intros F1 F2 k Hk Hok Hest; cbn [fold_right].
+  - cbn. rewrite orb_false_r. repeat split; assumption.
+  - inversion F1 as [|? ? E1 F1']; subst. inversion F2 as [|? ? E2 F2']; subst.
+    destruct (IH F1' F2' k Hk Hok Hest) as (A1 & A2 & A3 & A4 & A5 & A6 & A7 & A8 & A9).
+    set (k' := fold_right (fun e k => k10_ev k e) k l) in *.
+    unfold has_call_disc in *. cbn [existsb].
+    destruct e as [| | | | | | | | | |x| | | | |x cn hs ? ?]; try discriminate E1; k10s; cbn [orb];
+      try (repeat split; assumption).
+    + destruct x; k10s; cbn [orb]; try (repeat split; assumption).
+      rewrite A7. k10s. repeat split; try assumption. rewrite orb_true_r. reflexivity.
+    + destruct x as [|si]; [discriminate E1|]. destruct si; try discriminate E1.
+      cbn [teardown_site andb k1_ev k1_cur k1_est k1_ok].
+      repeat split; try assumption. rewrite A3. cbn [andb].
+      destruct cn; [|reflexivity]. cbn in E2. destruct (E2 eq_refl) as [E3 E4]. rewrite E4, A2, (Hest E3). reflexivity.
+Qed.
+
+(* reconnect()-free nested calls leave the window intact *)
+Lemma Vc_quiet id s s' k0 : quiet_rel s s' -> Vc id s (KS k10_ev k0 s) -> Vc id s' (KS k10_ev k0 s').
+Proof.
+  intros Q HV; dVc HV.
+  destruct (qr_tr _ _ Q) as (evs & Ht & Hq & Ho & Hc).
+  assert (Hconn : is_connected s = false) by (unfold is_connected; rewrite ccs; reflexivity).
+  unfold KS in *. rewrite Ht, fold_right_app.
+  destruct (quiet_fold (is_connected s) evs Hq Ho _ cowed cok1 ltac:(rewrite Hconn; discriminate))
+    as (A1 & A2 & A3 & A4 & A5 & A6 & A7 & A8 & A9).
+  assert (Hcs' : cs s' = CsDisconnecting).
+  { destruct (has_call_disc evs); rewrite Hc; [rewrite csock; reflexivity|exact ccs]. }
+  constructor; rewrite ?A1, ?A4, ?A5, ?A6, ?A7, ?A8, ?(qr_sock _ _ Q), ?(qr_nsock _ _ Q); try assumption; try reflexivity.
 Qed.
 
 (* reconnect()-free nested calls preserve the invariant; [pre]: packets _packet_write holds at that moment *)
-Lemma V_quiet pre s s' k0 : quiet_rel s s' ->
-  V true (set_outq (pre ++ outq s) s) (KS k10_ev k0 s) ->
-  V true (set_outq (pre ++ outq s') s') (KS k10_ev k0 s').
+Lemma V_quiet w pre s s' k0 : quiet_rel s s' ->
+  V w (set_outq (pre ++ outq s) s) (KS k10_ev k0 s) ->
+  V w (set_outq (pre ++ outq s') s') (KS k10_ev k0 s').
 Proof.
-  intros Q HV; destruct HV as [ok1 ok2 ok3 cur1 cur2 cur3 conn owed credit disc qdisc wire new]. ssimpl.
+  intros Q HV; dV HV. ssimpl.
   destruct (qr_tr _ _ Q) as (evs & Ht & Hq & Ho & Hc).
   destruct (qr_outq _ _ Q) as (added & Ha & Hnc & Hnone & Hdisc).
   pose proof (qr_sock _ _ Q) as Hsock.
-  assert (G : forall l, Forall (fun e => qev e = true) l -> Forall (obs_sound (is_connected s)) l ->
-            forall k, k2_owed (b2 k) = None -> k1_ok (b1 k) = true ->
-            (is_connected s = true -> k1_est (b1 k) = true) ->
-            let k' := fold_right (fun e k => k10_ev k e) k l in
-            k1_cur (b1 k') = k1_cur (b1 k) /\ k1_est (b1 k') = k1_est (b1 k) /\ k1_ok (b1 k') = true /\
-            b3 k' = b3 k /\ k2_ok (b2 k') = k2_ok (b2 k) /\ k2_cur (b2 k') = k2_cur (b2 k) /\
-            k2_owed (b2 k') = None /\ k2_credit (b2 k') = k2_credit (b2 k) /\
-            k2_disc (b2 k') = k2_disc (b2 k) || has_call_disc l).
-  { induction l as [|e l IH]; intros F1 F2 k Hk Hok Hest; cbn [fold_right].
-    - cbn. rewrite orb_false_r. repeat split; assumption.
-    - inversion F1 as [|? ? E1 F1']; subst. inversion F2 as [|? ? E2 F2']; subst.
-      destruct (IH F1' F2' k Hk Hok Hest) as (A1 & A2 & A3 & A4 & A5 & A6 & A7 & A8 & A9).
-      set (k' := fold_right (fun e k => k10_ev k e) k l) in *.
-      unfold has_call_disc in *. cbn [existsb].
-      destruct e as [| | | | | | | | | |x| | | | |x cn hs ? ?]; try discriminate E1; k10s; cbn [orb];
-        try (repeat split; assumption).
-      + destruct x; k10s; cbn [orb]; try (repeat split; assumption).
-        rewrite A7. k10s. repeat split; try assumption. rewrite orb_true_r. reflexivity.
-      + destruct x as [|si]; [discriminate E1|]. destruct si; try discriminate E1. cbn [teardown_site k1_ev k1_cur k1_est k1_ok].
-        repeat split; try assumption. rewrite A3. cbn [andb].
-        destruct cn; [|reflexivity]. cbn in E2. destruct (E2 eq_refl) as [E3 E4]. rewrite E4, A2, (Hest E3). reflexivity. }
   unfold KS in *. rewrite Ht, fold_right_app.
   assert (Hest : is_connected s = true -> k1_est (b1 (fold_right (fun e k => k10_ev k e) k0 (tr s))) = true).
   { intros X. apply conn. exact X. }
-  destruct (G evs Hq Ho _ owed ok1 Hest) as (A1 & A2 & A3 & A4 & A5 & A6 & A7 & A8 & A9).
-  (* the state after the calls *)
+  destruct (quiet_fold (is_connected s) evs Hq Ho _ owed ok1 Hest) as (A1 & A2 & A3 & A4 & A5 & A6 & A7 & A8 & A9).
   assert (Hcs : has_call_disc evs = true -> sock s <> None -> cs s' = CsDisconnecting).
   { intros X Y. rewrite X in Hc. rewrite Hc. destruct (sock s); [reflexivity|congruence]. }
   assert (Hcs0 : has_call_disc evs = false -> cs s' = cs s).
   { intros X. rewrite X in Hc. exact Hc. }
   constructor; unfold is_connected, disc_state in *; ssimpl;
-    rewrite ?A1, ?A2, ?A4, ?A5, ?A6, ?A7, ?A8, ?Hsock; try assumption; try reflexivity.
-  - (* connected *)
-    intros X. destruct (has_call_disc evs) eqn:Ed.
+    rewrite ?A1, ?A2, ?A4, ?A5, ?A6, ?A7, ?A8, ?Hsock, ?(qr_nsock _ _ Q); try assumption; try reflexivity.
+  - intros X. destruct (has_call_disc evs) eqn:Ed.
     + exfalso. rewrite Hc in X. destruct (sock s); discriminate.
     + rewrite (Hcs0 eq_refl) in X. apply conn. exact X.
-  - (* disconnect() flag *)
-    intros X. rewrite A9. destruct (has_call_disc evs) eqn:Ed.
+  - intros X. rewrite A9. destruct (has_call_disc evs) eqn:Ed.
     + rewrite orb_true_r. rewrite (Hcs eq_refl X). reflexivity.
     + rewrite orb_false_r, disc by exact X. rewrite (Hcs0 eq_refl). reflexivity.
-  - (* queued DISCONNECT *)
-    rewrite Ha, app_assoc, has_disc_app. intros X Y. apply orb_true_iff in X as [X|X]; [|exact (Hdisc X)].
+  - rewrite Ha, app_assoc, has_disc_app. intros X Y. apply orb_true_iff in X as [X|X]; [|exact (Hdisc X)].
     pose proof (qdisc X Y) as Z0. destruct (has_call_disc evs) eqn:Ed; [apply Hcs; [reflexivity|exact Y]|].
     rewrite (Hcs0 eq_refl). exact Z0.
-  - (* wire *)
-    intros _ Y. rewrite Ha, app_assoc. apply wire_okb_app; [apply wire; [reflexivity|exact Y]|exact Hnc].
-  - intros; discriminate.
+  - intros Hw Y. rewrite Ha, app_assoc. apply wire_okb_app; [apply wire; assumption|exact Hnc].
+  - intros Hw. destruct (new Hw) as [B1 B2]. split; [exact B1|]. rewrite Ha, app_assoc, nocon_app, B2, Hnc. reflexivity.
+  - (* DISCONNECTED only without a socket *)
+    intros X. destruct (has_call_disc evs) eqn:Ed.
+    + rewrite Hc in X. destruct (sock s); [discriminate|reflexivity].
+    + rewrite (Hcs0 eq_refl) in X. apply dsock. exact X.
 Qed.
